@@ -68,6 +68,8 @@ static Json::Value gen() {
       if (P(80)) rs["prekill_hook_timeout"] = std::to_string(R(5, 60));
     sc["meta"]["hook"] = true;
   }
+  // kernfs-style 64-bit cgroup identities (generation in the upper half, slot recycled per path)
+  if (P(25)) sc["virt_ino"] = true;
   return sc;
 }
 
